@@ -125,6 +125,28 @@ AtEnd ==
         rt == want = <<>> \/ adm = {OkOut(want[1])}
     IN PrintT(<<"V", ToJson([s |-> sh, a |-> in, adm |-> SetToSeq(adm), tr |-> res,
                              trok |-> trok, rt |-> rt, w |-> want # <<>>, arms |-> SetToSeq(arms)])>>)
+\* "accepts EXACTLY the command lines of its declared grammar", inside the specification: a line
+\* the definition accepts (touching no undocumented point) is a rendering of the token assignment
+\* read off it - for SOME order out of all permutations and all alias choices.  Together with the
+\* round trip (every rendering is accepted with its value) the recognising and the generating
+\* definition describe the same language on the bounded domain.
+AllLevelOrders(S, tv) ==
+    LET m == Len(Slots(S, tv))
+    IN {o \in [perm : {q \in [1..m -> 1..m] : \A a, b \in 1..m : a # b => q[a] # q[b]},
+                alias : [1..m -> {"l", "s"}]] : OrderValid(S, tv, o)}
+RECURSIVE AllOrders(_, _)
+AllOrders(S, tv) ==
+    LET inner == IF tv.sc = <<>> \/ SubOf(S).tags[tv.sc[1].tag].inner = <<>> THEN {<<>>}
+                 ELSE {<<o>> : o \in AllOrders(SubOf(S).tags[tv.sc[1].tag].inner[1], tv.sc[1].v)}
+    IN [here : AllLevelOrders(S, tv), inner : inner]
+InGrammar ==
+    res = Running \/
+    LET S == Shapes[sh]
+        d == DetX(S, P0, <<>>, in, TRUE)
+    IN (GrayDims(S, in) = {} /\ \E x \in d : x.ok) =>
+           LET tv == (CHOOSE x \in d : x.ok).v
+           IN \E o \in AllOrders(S, tv) : Render(S, tv, o) = in
+
 \* the fast computation of the admissible set is the definition (checked in the small
 \* self-check configuration)
 FastIsFull == res = Running \/ Admissible(Shapes[sh], in) = AdmissibleFull(Shapes[sh], in)
